@@ -245,8 +245,18 @@ def c01_oracle(chk, c, rep):
         for m in range(s):
             v = fvals(evs[q]); q += 1
             if m == 0:
+                # the last knot is answered by the last piece at local time t_n - t_{n-1}, a difference of *rounded* absolute knot
+                # times: it differs from the duration by up to ulp(t_n), which moves the value by |velocity| * ulp(t_n)
+                slack = Fr(0)
+                if i == c.n and c.n >= 1:
+                    co_ = coeff_table(rep['coeffs'], c.n, NC[c.order], c.d)
+                    hl = Fr(hd[-1])
+                    vmax = max((abs(peval([co_[c.n - 1][k][j] for k in range(NC[c.order])], hl * qq / 4, 1))
+                                for j in range(c.d) for qq in range(5)
+                                if not any(isinstance(co_[c.n - 1][k][j], float) for k in range(NC[c.order]))), default=Fr(0))
+                    slack = 4 * vmax * Fr(math.ulp(max(abs(x) for x in cum) + 1e-300))
                 for j in range(c.d):
-                    if any(isinstance(x, float) for x in v) or abs(v[j] - P[i][j]) > tol * S:
+                    if any(isinstance(x, float) for x in v) or abs(v[j] - P[i][j]) > tol * S + slack:
                         chk.violation(f'trajectory evaluated at knot {i} is not waypoint {i}', c.describe(),
                                       {'value': float(v[j]) if not isinstance(v[j], float) else str(v[j]), 'waypoint': float(P[i][j])})
 
@@ -853,7 +863,7 @@ def c18(chk):
                     continue
                 d = rng.choice([1, 2, 3])
                 c = gen.SplineCase(order, d, n, hs, gen.points(rng, n + 1, d, short=0.5), gen.bc_vals(rng, order, d, short=0.5),
-                                   t0=0.0, mode='dur')
+                                   t0=rng.choice([0.0, 0.0, 1.7e9 + 0.123, -4.1e10 - 0.7]), mode='dur')     # incl. wall-clock start times
                 c.meta['placement'] = ['single-long', 'single-short', 'log-uniform'][mode]
                 cases.append(c)
     lines = [c.line(i, 'X') for i, c in enumerate(cases)]
